@@ -8,16 +8,18 @@
    regions of live blocks (blocks and separate records) distinct and older than the call counter, every block laid out
    soundly with as many content bytes as its size.
    Scenarios with memory accounting on ([sc_wrap], C05_Wrapper.v): the AccountingTestMemoryAllocator wrappers are transparent
-   (same pointer, same size), so [run] is that of the scenario without wrappers; [spec] demands the same of the observation
-   except for the sizes and the balance of the underlying calls, of which it reads only whether one failed. *)
+   (same pointer, same size) and fail cleanly, so [run] is that of the scenario without wrappers; [spec] demands the same of the
+   observation except for the sizes of the underlying calls; a refused request for a statistics node of the accountant does not
+   have to fail the allocation, and statistics nodes may outlive a failed request.  [run] does not predict the wrappers' own
+   underlying requests, so with fault indices AND wrappers the oracle judges the implementation's observation alone. *)
 From Coq Require Import NArith List Bool Permutation.
 From CppUVerif Require Import gen.Gen_Common gen.Gen_C05 lib.Str C05_Model C05_Proofs C05_History C05_Theorems C05_Wrapper.
 From CppUVerif Require C05_LeafTie.
 Import ListNotations.
 Local Open Scope N_scope.
 
-(* every valid scenario (any sizes below 2^64, any fault points, both builds, with or without the accounting wrappers -- wrapper
-   scenarios carry no fault points): the model's observation passes the oracle *)
+(* every valid scenario (any sizes below 2^64, any fault points, both builds, with or without the accounting wrappers): the
+   model's observation passes the oracle; nothing is left allocated at the end *)
 Theorem C05_run_meets_spec : forall sc, valid sc = true -> spec sc (run sc) = true.
 Proof. exact run_meets_spec. Qed.
 Print Assumptions C05_run_meets_spec.
@@ -153,21 +155,49 @@ Proof. exact C05_LeafTie.C05_size_arithmetic_is_the_source. Qed.
 Print Assumptions C05_size_arithmetic_is_the_source.
 
 (* ---- memory accounting on: AccountingTestMemoryAllocator between the entry points and the underlying allocator ---- *)
-(* the wrapper (mirror of alloc_memory and its tracking list) is transparent: it returns the pointer the wrapped allocator
-   returned for exactly the requested size -- same address, same alignment --, asks for its node separately, and pushes the node *)
-Theorem C05_wrapper_transparent : forall node_sz und k l size p l' cs,
-  w_alloc node_sz und k l size = Some (p, l', cs) ->
-  p = und k size /\ p mod 16 = und k size mod 16 /\
-  cs = [UAlloc size p; UAlloc node_sz (und (k + 1) node_sz)] /\ und (k + 1) node_sz <> 0 /\
-  l' = {| wn_addr := und (k + 1) node_sz; wn_mem := p; wn_size := size |} :: l.
+(* the wrapper (mirror of the repaired alloc_memory, its tracking list and the accountant's node requests) is transparent: a
+   pointer it returns is the pointer the wrapped allocator returned for exactly the requested size -- same address, same
+   alignment --, it asks for its node separately and pushes it, and whatever else it asks for is a statistics node *)
+Theorem C05_wrapper_transparent : forall node_sz und k cl l size,
+  let r := w_alloc node_sz und k cl l size in
+  r_ptr r <> 0 ->
+  r_ptr r = und k size /\ r_ptr r mod 16 = und k size mod 16 /\ und (k + 1) node_sz <> 0 /\
+  r_list r = {| wn_addr := und (k + 1) node_sz; wn_mem := r_ptr r; wn_size := size |} :: l /\
+  exists cs, r_calls r = [UAlloc size (r_ptr r); UAlloc node_sz (und (k + 1) node_sz)] ++ cs /\ Forall stat_request cs.
 Proof. exact wrapper_transparent. Qed.
 Print Assumptions C05_wrapper_transparent.
 
+(* the wrapped allocator refuses the block or the tracking node: alloc_memory returns NULL, tracking list and statistics are
+   unchanged, and no block of the wrapped allocator stays allocated (the block is given back when only the node was refused) *)
+Theorem C05_wrapper_alloc_fails_cleanly : forall node_sz und k cl l size,
+  und k size = 0 \/ und (k + 1) node_sz = 0 ->
+  let r := w_alloc node_sz und k cl l size in
+  r_ptr r = 0 /\ r_list r = l /\ r_cl r = cl /\ held (r_calls r) [] = [].
+Proof. exact wrapper_alloc_fails_cleanly. Qed.
+Print Assumptions C05_wrapper_alloc_fails_cleanly.
+
+(* it refuses only the accountant's statistics node: the caller gets the block, the size just has no statistics *)
+Theorem C05_wrapper_stat_refused : forall node_sz und k cl l size,
+  und k size <> 0 -> und (k + 1) node_sz <> 0 -> mem size cl = false -> und (k + 2) STAT = 0 ->
+  let r := w_alloc node_sz und k cl l size in
+  r_ptr r = und k size /\ r_cl r = cl /\ r_list r = {| wn_addr := und (k + 1) node_sz; wn_mem := und k size; wn_size := size |} :: l.
+Proof. exact wrapper_stat_refused. Qed.
+Print Assumptions C05_wrapper_stat_refused.
+
+(* the code as it was (statistics first, neither node tested, a NULL block recorded): "whichever of the three underlying requests
+   of alloc_memory(24) is refused, NULL comes back, nothing is recorded, nothing stays allocated" is false; witness: the third
+   request refused = `1 40 1 2 :wrap :m 10`, where the unrepaired code writes to the NULL tracking node *)
+Theorem C05_wrapper_fault_old_refuted : ~ wrapper_fault_old_stmt.
+Proof. exact wrapper_fault_old_refuted. Qed.
+Print Assumptions C05_wrapper_fault_old_refuted.
+
 (* free_memory after alloc_memory: the tracking list is as before, exactly the two pointers obtained are given back, the block as
-   the pointer the caller holds *)
-Theorem C05_wrapper_alloc_free : forall node_sz und k l size p l' cs,
-  w_alloc node_sz und k l size = Some (p, l', cs) ->
-  w_free l' p = (l, [UFree (und (k + 1) node_sz) size; UFree p size]).
+   the pointer the caller holds; in between at most a statistics node is asked for *)
+Theorem C05_wrapper_alloc_free : forall node_sz und k cl l size,
+  let r := w_alloc node_sz und k cl l size in
+  r_ptr r <> 0 ->
+  exists k' cl' cs, w_free und (r_k r) (r_cl r) (r_list r) (r_ptr r) = (k', cl', l, UFree (und (k + 1) node_sz) size :: cs ++ [UFree (r_ptr r) size]) /\
+                    Forall stat_request cs.
 Proof. exact wrapper_alloc_free. Qed.
 Print Assumptions C05_wrapper_alloc_free.
 
@@ -189,16 +219,20 @@ Theorem C05_spec_wrap_monotone : forall sc o, sc_wrap sc = false -> spec sc o = 
 Proof. exact spec_wrap_monotone. Qed.
 Print Assumptions C05_spec_wrap_monotone.
 
-(* ... of the underlying call logs it reads only whether a call failed ([canon]: the projection applied to both observations of
-   a wrapper scenario before they are compared) ... *)
+(* ... of the underlying call logs it reads only whether a call other than a request for a statistics node failed, whether such a
+   request failed, and whether everything but statistics nodes was given back ([canon]: the projection applied to both
+   observations of a wrapper scenario before they are compared) ... *)
 Theorem C05_spec_wrap_reads_failure_only : forall sc o, sc_wrap sc = true -> spec sc (canon o) = spec sc o.
 Proof. exact spec_wrap_reads_failure_only. Qed.
 Print Assumptions C05_spec_wrap_reads_failure_only.
 
 (* ... and, wrappers or not, an accepted observation has every returned pointer 0 mod 16, overlapping no other live block or
-   record, user bytes + guard and record laid out inside the region(s) for some size below 2^64, no report, no failed call; the
-   flag echoed; at the end nothing tracked and no report *)
+   record, user bytes + guard and record laid out inside the region(s) for some size below 2^64, no report, no failed call (with
+   the wrappers: none but requests for statistics nodes); every NULL / bad_alloc without a report and with everything obtained given
+   back (statistics nodes apart with the wrappers); the flag echoed; at the end nothing tracked, no report, and nothing left
+   allocated (with the wrappers: at most one region per reallocation of a live block, the moved block's stale tracking node) *)
 Theorem C05_spec_demands : forall sc o, spec sc o = true ->
-  ob_wrap o = sc_wrap sc /\ Forall (ptr_sound (sc_cfg sc)) (ob_ops o) /\ ob_end_total o = 0 /\ ob_end_rep o = 0.
+  ob_wrap o = sc_wrap sc /\ Forall (fun ob => ptr_sound (sc_wrap sc) (sc_cfg sc) ob /\ null_clean (sc_wrap sc) ob) (ob_ops o) /\
+  ob_end_total o = 0 /\ ob_end_rep o = 0 /\ (sc_wrap sc = false -> ob_end_leak o = 0) /\ ob_end_leak o <= moved (sc_ops sc) (ob_ops o).
 Proof. exact spec_demands. Qed.
 Print Assumptions C05_spec_demands.
